@@ -3,9 +3,10 @@
 set -u
 ID="$1"; NAME="${2:-$1}"; TIER="${3:-quick}"; OUT="/verif/seeded/$NAME"
 cd /verif
-git -C /repo apply "$OUT/patch.diff" || { echo "patch does not apply to /repo"; exit 1; }
+PATCH="$OUT/patch.diff"; [ -f "$OUT/patch.ported.diff" ] && PATCH="$OUT/patch.ported.diff"
+git -C /repo apply "$PATCH" || { echo "patch does not apply to /repo"; exit 1; }
 ./check "$ID" "$TIER" > "$OUT/check_$TIER.log" 2>&1; CHECK=$?
 git -C /repo checkout -- .
 echo "check_exit=$CHECK"
 grep -E "^VIOLATION|^violation|HARNESS" "$OUT/check_$TIER.log" | cut -c1-400 | head -4
-echo "check_${TIER}_exit=$CHECK" >> "$OUT/result.env"
+
